@@ -716,6 +716,9 @@ def run(ctx):
                                   "short" if stride < w * inB else "padded")
                 if inB in (2, 4) and stride % inB:
                     sk += "+unaligned"
+                if inB == 3 and hh >= 2:
+                    k3 = "24bpp-source stride%%3=%d (h>=2)" % (stride % 3)
+                    dist["area"][k3] = dist["area"].get(k3, 0) + 1
                 dist["area"][shape] = dist["area"].get(shape, 0) + 1
                 dist["area"][sk] = dist["area"].get(sk, 0) + 1
                 dist["pixels"] += w * hh
